@@ -1104,6 +1104,7 @@ lys_unres_glob_revert(struct ly_ctx *ctx, struct lys_glob_unres *unres)
     uint32_t i, j, idx, *prev_lo, temp_lo = 0;
     struct lysf_ctx fctx = {.ctx = ctx};
     struct ly_set *dep_set;
+    struct lys_module *m, *mod_latest;
     LY_ERR ret;
 
     for (i = 0; i < unres->implementing.count; ++i) {
@@ -1125,6 +1126,21 @@ lys_unres_glob_revert(struct ly_ctx *ctx, struct lys_glob_unres *unres)
 
         /* remove the module from the context */
         ly_set_rm(&ctx->list, fctx.mod, NULL);
+
+        if (fctx.mod->latest_revision & LYS_MOD_LATEST_REV) {
+            /* the flag was taken from the previous latest revision when this module was parsed, give it back */
+            mod_latest = NULL;
+            idx = 0;
+            while ((m = ly_ctx_get_module_iter(ctx, &idx))) {
+                if (!strcmp(m->name, fctx.mod->name) && (!mod_latest || (m->revision && (!mod_latest->revision ||
+                        (strcmp(m->revision, mod_latest->revision) > 0))))) {
+                    mod_latest = m;
+                }
+            }
+            if (mod_latest) {
+                mod_latest->latest_revision |= LYS_MOD_LATEST_REV;
+            }
+        }
 
         /* remove it also from dep sets */
         for (j = 0; j < unres->dep_sets.count; ++j) {
